@@ -121,6 +121,9 @@ func caseCoq(f *Fam, c Case) string {
 		return vcaseCoq(c.Fam, *c.V, c.Obs)
 	}
 	if c.W != nil {
+		if c.W.Kind == "Par" {
+			return "@P" + wCaseCoq(*c.W, c.Fn, c.Obs)
+		}
 		return "@W" + wCaseCoq(*c.W, c.Fn, c.Obs)
 	}
 	var hyps []string
@@ -184,7 +187,7 @@ func caseCoq(f *Fam, c Case) string {
 	return sb.String()
 }
 
-const shardHeader = "From Coq Require Import Reals ZArith List. Import ListNotations.\nFrom ADV Require Import C14.ER C14.Model C14.VModel C14.SModel C14.Corr C14.CorrH C14.MixModel C14.SkewModel C14.IWModel C14.Corr2.\nOpen Scope R_scope.\nGoal True.\n"
+const shardHeader = "From Coq Require Import Reals ZArith List. Import ListNotations.\nFrom ADV Require Import C14.ER C14.Model C14.VModel C14.SModel C14.Corr C14.CorrH C14.MixModel C14.SkewModel C14.IWModel C14.Corr2 C14.MixParam C14.CorrP.\nOpen Scope R_scope.\nGoal True.\n"
 
 // shards of `per` cases for props[0:split) and of `per2` cases for props[split:) (the vector cases, whose
 // certificates are slower); the case index printed on a mismatch is the global index
@@ -215,6 +218,8 @@ func writeShards(dir, stem string, props []string, per int, splits ...int) (int,
 				tac, pr = "chkh", pr[2:]
 			} else if strings.HasPrefix(pr, "@W") { // mixtures, skew normal, matrix families: Corr2.solve_wide
 				tac, pr = "chkw", pr[2:]
+			} else if strings.HasPrefix(pr, "@P") { // parameter layout of composite distributions: CorrP.pcheck
+				tac, pr = "chkp", pr[2:]
 			}
 			sb.WriteString(fmt.Sprintf("%s %d%%nat %s.\n", tac, i, pr))
 		}
@@ -425,6 +430,26 @@ func main() {
 			nontriv[fmt.Sprintf("%s/%s/%v", c.Fam, c.Fn, *c.W)] = true
 		}
 	}
+	// parameter layout of mixtures / products (param.go): K != parameters per component, heterogeneous, nested
+	pr := NewRng(o.Seed*1000003 + 191)
+	for k := 0; k < o.N/4; k++ {
+		w := genParCase(k, pr.Split())
+		obs, inc := wEvalAll(&w, "SetParameters")
+		c := Case{Fam: "WPar", Fn: "SetParameters", Obs: obs, Incons: inc, Class: "valid-params:" + w.Mode + ":" + obs.Kind, W: &w}
+		cases = append(cases, c)
+		props = append(props, caseCoq(nil, c))
+		hist["family:"+c.Fam]++
+		hist["method:"+c.Fn]++
+		hist["outcome:"+c.Class]++
+		hist[fmt.Sprintf("param-level:%d", w.Level)]++
+		hist[fmt.Sprintf("param-K:%d", len(w.Tree.W))]++
+		if inc != "" {
+			incons = append(incons, c)
+		}
+		if obs.Kind != "ctorerr" {
+			nontriv[fmt.Sprintf("WPar/%d/%s/%v", w.Level, treeCoq(w.Tree), w.PV)] = true
+		}
+	}
 	per := 40
 	nsh, err := writeShards(o.Out, "cases", props, per, nScalar, 11)
 	if err != nil {
@@ -455,7 +480,10 @@ func main() {
 			"(formula, guard or special-value path exercised); distinct = distinct (family, method, parameters, point); " +
 			"wide stream (n/4 cases, wide.go): scalar / vector mixtures of 1-4 components with unnormalised dyadic weights incl. zeros, negative, all-zero " +
 			"and miscounted weights, LogPdf / Posterior / Likelihood / stored log-weights, every component -Inf in 1 of 6; skew normal d = 1..3 (negative / zero " +
-			"scales, alpha = 0, dimension errors); inverse Wishart / normal-inverse-Wishart d = 1..3 (non-PD S or X, nu outside the textbook range, clones)",
+			"scales, alpha = 0, dimension errors); inverse Wishart / normal-inverse-Wishart d = 1..3 (non-PD S or X, nu outside the textbook range, clones); " +
+			"parameter-layout stream (n/4 cases, param.go): scalar / vector / matrix mixtures over 13 leaf families (1-3 parameters), ScalarIid / ScalarId / VectorIid / VectorId " +
+			"components, nested mixtures to depth 2, K = 1..4 in the shapes 3 x Normal, 2 x GEV, Laplace + Exponential + Gamma, K = 1, nested, 2 x 2, random; one SetParameters per case: " +
+			"an assembled vector (valid; one refused window; one entry too many; too short; weights only), the vector GetParameters() returned, or a clone of it",
 		"samples": samples, "histogram": hist, "shards": nsh, "per_shard": per,
 		"extra": map[string]interface{}{"inconsistent": incons, "tolerance": fmt.Sprintf("2^-%d * max(1,|value|)", tolBits)},
 	}
